@@ -51,8 +51,9 @@ SolverClasses == [m : MClasses, x : XClasses, pos : PosClasses, pol : PolIdx, op
 (* which relations are asserted for a class *)
 Relations(c) ==
    {"S_mie_vs_textbook", "S_pyseries_vs_textbook"}
-   \cup (IF c.opt = "norad_full" /\ c.x \notin {"xlarge", "huge"}     \* cluster solver validity: kR < ~80
-         THEN {"field_mie_vs_multisphere"} ELSE {})
+   \* the cluster solver accepts spheres up to size parameter 1000 (its documentation and its guard): every size
+   \* class here is inside that range
+   \cup (IF c.opt = "norad_full" THEN {"field_mie_vs_multisphere"} ELSE {})
    \cup (IF c.opt = "norad_asym" /\ c.pos = "far" THEN {"field_mie_vs_textbook_farfield"} ELSE {})
    \cup (IF c.opt = "rad_full" THEN {"field_finite"} ELSE {})
 
